@@ -37,6 +37,12 @@ Theorem C16_src_parse_is_doc_parse : forall ts, parse src_table ts = parse doc_t
 Proof. exact src_parse_is_doc_parse. Qed.
 Print Assumptions C16_src_parse_is_doc_parse.
 
+(* Parentheses first, whatever the operator table: an expression in which every composite sub-expression is
+   parenthesised is read back as written under ANY precedences and associativities of &&, || and !. *)
+Theorem C16_parentheses_first_any_table : forall t e, parse t (print_full e) = Some e.
+Proof. exact parse_print_full. Qed.
+Print Assumptions C16_parentheses_first_any_table.
+
 (* The executable property the harness evaluates on the implementation's observations holds of the model on
    every input (no known-finding class is left: kf_C16 = 0 everywhere). *)
 Theorem C16_prop_of_model : forall i, kf_C16 i = 0%Z -> prop_C16 i (run_C16 i) = true.
